@@ -100,12 +100,7 @@ func c10Faces(c *h.Ctx, id string, r *rand.Rand) {
 				return
 			}
 		}
-		var delivered []*defn.Pkt
-		for _, t := range rts {
-			i, d := t.Take()
-			delivered = append(delivered, i...)
-			delivered = append(delivered, d...)
-		}
+		delivered := fwenv.TakeAll(rts)
 		if len(delivered) != len(f.msgs) {
 			c.Violation("C10:concurrent-faces:delivered-count", id, fmt.Sprintf("face %d of %d sending concurrently: %d packets sent, its peer reassembled %d", k, nFaces, len(f.msgs), len(delivered)), det)
 			return
